@@ -56,6 +56,21 @@ def run(tier):
             check.violation({"class": "observer-" + r["what"], "op": r["op"],
                              "after": sorted(set(prior))},
                             {"task": t, "observed": r})
+    # breadth: one history that runs every observer twice, on every program of the shared pool (long lists, constructs nested in
+    # themselves, every short access chain ...): an observer that damages the tree only for a particular shape shows here
+    wide = [{"op": "history", "src": p["src"], "ver": p["ver"], "hist": ["print", "dump11", "traverse", "resolve", "print", "dump11", "traverse", "resolve"]}
+            for p in inputs.programs(check, tier)]
+    for t, r in zip(wide, wp.run(wide)):
+        if r.get("skip"):
+            continue
+        check.count()
+        if r.get("panic") or r.get("hang") or r.get("crash"):
+            continue            # C01's business on these inputs
+        ran += 1
+        if "diverged" in r:
+            prior = t["hist"][:r["diverged"]]
+            check.violation({"class": "observer-" + r["what"], "op": r["op"], "after": sorted(set(prior))}, {"task": t, "observed": r})
+    check.cov["programs_under_the_wide_history"] = len(wide)
     # the outputs must not depend on what the process did before either (operations on OTHER trees are part of "any
     # sequence of these operations"): resolver-heavy files and a sample of the others are observed one after the other in ONE
     # long-lived process and, separately, each in a process of its own; every observer's output must be the same
